@@ -275,7 +275,8 @@ def classify_sanitizer(stderr, repo_prefix=None):
                 if kind.startswith("tsan") and fn not in tsan_fns:
                     tsan_fns.append(fn)
     sm = re.search(r"SUMMARY: (.+)", stderr)
-    return {"kind": kind, "first_repo_function": first_fn, "alloc_repo_function": alloc_fn,
+    rm = re.search(r"of (\d+)-byte region", stderr)
+    return {"kind": kind, "first_repo_function": first_fn, "alloc_repo_function": alloc_fn, "region_bytes": rm.group(1) if rm else "",
             "tsan_functions": tsan_fns[:6], "summary": sm.group(1)[:200] if sm else ""}
 
 
